@@ -43,6 +43,15 @@ pub struct VClock(pub Rc<RefCell<VClockState>>);
 
 thread_local! {
     static CURRENT: RefCell<Option<VClock>> = const { RefCell::new(None) };
+    static ON_READ: RefCell<Option<ReadCallback>> = const { RefCell::new(None) };
+}
+
+/// Called at the start of every virtual clock read, before the value is computed: lets a harness
+/// script time (and anything else) from inside code it cannot interleave with otherwise.
+pub type ReadCallback = Box<dyn FnMut(libc::clockid_t, &mut VClockState)>;
+
+pub fn set_on_read(cb: Option<ReadCallback>) {
+    ON_READ.with(|c| *c.borrow_mut() = cb);
 }
 
 impl VClock {
@@ -141,6 +150,17 @@ pub unsafe extern "C" fn clock_gettime(clk: libc::clockid_t, ts: *mut libc::time
     match virt {
         Some(vc) => {
             let mut s = vc.0.borrow_mut();
+            let cb = ON_READ.try_with(|c| c.try_borrow_mut().ok().and_then(|mut g| g.take())).ok().flatten();
+            if let Some(mut cb) = cb {
+                cb(clk, &mut s);
+                let _ = ON_READ.try_with(|c| {
+                    if let Ok(mut g) = c.try_borrow_mut() {
+                        if g.is_none() {
+                            *g = Some(cb);
+                        }
+                    }
+                });
+            }
             if let Some(d) = s.pre_read_delays.pop_front() {
                 s.mono_ns += d;
             }
